@@ -20,7 +20,7 @@ rm -f "$DEMO"
 ( cd "$SCR/repo" && go test -vet=off -count=1 ./internal/... 2>&1 | grep -E "^(--- FAIL|FAIL|ok)" > "$SCR/suite.log" )
 NEWFAIL=$(grep -E "^--- FAIL" "$SCR/suite.log" | grep -v "TestRoundTrip\|TestNewStatsd\|TestGracefulShutdown" | tr '\n' ' ')
 export VERIF_SCRATCH_OUT="$SCR/out"; mkdir -p "$VERIF_SCRATCH_OUT"
-VERIF_REPO="$SCR/repo" bin/ssovc check -property "$ID" -tier quick > "$SCR/check.log" 2>&1; RC=$?
+VERIF_REPO="$SCR/repo" "${SSOVC_BIN:-bin/ssovc}" check -property "$ID" -tier quick > "$SCR/check.log" 2>&1; RC=$?
 VIOL=$(grep '^VIOLATION' "$SCR/check.log" | sed 's/.*obligation=//' | tr '\n' ' ')
 echo "$NAME: demo without=$RC_WITHOUT with=$RC_WITH suite-new-failures=[$NEWFAIL] check-exit=$RC obligations=[$VIOL]"
 [ $RC -eq 2 ] && grep UNDECIDED "$SCR/check.log"
